@@ -280,6 +280,9 @@ var opDefs = []opDef{
 		y, m, d := genYMD(r, 1, 9999)
 		loc := rng.Pick(r, time.UTC, time.FixedZone("X", 3600*rng.Pick(r, -11, -3, 5, 13)+rng.Pick(r, 0, 1800, 2700)), time.Local)
 		t := time.Date(y, time.Month(m), d, r.Intn(24), r.Intn(60), r.Intn(60), r.Intn(1000)*1000000, loc)
+		if r.Chance(1, 12) { // the zero value of time.Time (an instant like any other here: 0001-01-01 00:00:00 UTC), also seen from another zone
+			t = rng.Pick(r, time.Time{}, time.Time{}.In(time.FixedZone("E", 5*3600+1800)), time.Date(1, 1, 1, 0, 0, 0, 0, time.UTC), time.Time{}.Add(time.Second))
+		}
 		tk := fmt.Sprintf("dt:%d-%d-%d-%d-%d-%d", t.Year(), int(t.Month()), t.Day(), t.Hour(), t.Minute(), t.Second())
 		return []string{tk}, func(u uhppote.IUHPPOTE) string {
 			res, err := u.SetTime(dev, t)
@@ -810,6 +813,11 @@ func genArrivals(r *rng.R, op opDef, dev uint32, focus string) ([][]byte, string
 				f := cands[r.Intn(len(cands))]
 				if f.kind == "bool" {
 					b[f.off] = rng.Pick(r, byte(2), 0x10, 0xff, 0x80)
+				} else if f.kind == "datetime" && r.Chance(1, 3) {
+					// the date part is one of the "no value" patterns, the time part is not decimal: still malformed
+					copy(b[f.off:f.off+4], rng.Pick(r, []byte{0, 0, 0, 0}, []byte{0, 1, 1, 1}, []byte{0x20, 0, 0, 0}))
+					copy(b[f.off+4:f.off+7], []byte{0, 0, 0})
+					b[f.off+4+r.Intn(3)] = rng.Pick(r, byte(0x1a), 0xa1, 0xff, 0x0f)
 				} else {
 					b[f.off+r.Intn(f.w)] = rng.Pick(r, byte(0x1a), 0xa1, 0xff, 0x0f)
 				}
